@@ -18,6 +18,7 @@ func checkC13(c *Ctx) {
 	r.Explanation = "Decides structural necessary conditions of C13: (G) the per-key tables fifoMap.items / mapItem.ilen, cmap.mutex.items and OuterCancel.rcancels/rcancelx are only touched under their table lock; (B) a blocking acquisition of a per-key lock never happens while the table lock is held; (RC) an entry of a per-key lock table is removed only under a 'no holders or waiters' test (refcount == 0) — without it a waiter that already looked the lock up and a later arrival that creates a fresh one hold the same key together; (P) fifoMap.Lock counts the caller in exactly once before blocking and Unlock counts it out exactly once; (CAP) the channel mutexes (fifo.Mutex.lock, lock.Context.locked, OuterCancel.lock) are created with capacity exactly 1 and Lock sends / Unlock receives unconditionally; (CTX) lock.Context: a return of the context error holds neither token nor RWMutex, a nil return holds both, Unlock/RUnlock release both; (OC) OuterCancel.handleHold: every return has either released the slot or handed its release out in the response's cancel closure, the writer grant is preceded by the cancel fan-out and wg.Wait, the reader's wg.Add(1) happens with the slot held, rcancel does wg.Done only under !done and sets done, rcancelGrace calls rcancel only after its three-way wait on time.After(gracefulTimeout)/closeCh/doneCh, and readers are cancelled with cancelErr. NOT decided: mutual exclusion and FIFO order as runtime facts (FIFO rests on the Go runtime's channel queue order), cancellation causes over all histories, grace timing."
 	r.Assumptions = append(r.Assumptions, "type-based lock identity: all per-key locks of one table are one abstract lock", "blocked senders on a channel are served in arrival order by the Go runtime (FIFO claim rests on this; not analysed)")
 	r.Rule("C13.G-guard", "per-key tables and refcounts only under the table lock", 12)
+	r.Rule("C13.DC-double-checked-create", "a per-key lock is inserted into the table only in the critical section that (re-)checked its absence", 10)
 	r.Rule("C13.B-blocking-outside", "blocking per-key Lock/RLock is called with the table lock released", 3)
 	r.Rule("C13.RC-refcount-removal", "per-key entry removed only under a refcount==0 (no holders or waiters) test", 3)
 	r.Rule("C13.P-count-pairing", "fifoMap.Lock increments ilen exactly once before blocking; Unlock decrements exactly once", 2)
@@ -39,6 +40,10 @@ func checkC13(c *Ctx) {
 		{Field: FieldID{lk + ".OuterCancel", "rcancelx"}, Lock: lk + ".OuterCancel.rcancelLock"},
 	}
 	CheckGuardedBy(p, e, r, "C13.G-guard", specs)
+	// creation of a per-key lock is double-checked: the section that inserts
+	// re-reads the table under the write lock (otherwise two first-time lockers
+	// of one key each install and lock their own mutex)
+	CheckSingleSection(p, e, r, "C13.DC-double-checked-create", []GuardSpec{specs[0], specs[2]})
 
 	// B: blocking per-key acquisition outside the table lock
 	perKey := map[string]string{
